@@ -270,6 +270,9 @@ def generate(run_seed, tier):
     if rw.random() < 0.04:
         return generate_dense(rw, rn, tier)
     nwin = rw.choice([1, 2, 2, 3, 4, 6])
+    soak = tier != "quick" and rw.random() < 0.01
+    if soak:
+        nwin = rw.choice([40, 120])   # one reader instance over many buffers (counters, slow drift of state)
     sizes = [2000, 3000, 4096, 8000] + ([20000] if tier != "quick" or rw.random() < 0.1 else [])
     if tier != "quick" and rw.random() < 0.02:
         sizes = [204800]
@@ -279,7 +282,7 @@ def generate(run_seed, tier):
     p_corrupt = rw.choice([0.0, 0.2, 0.5])
     decreasing = rn.random() < 0.3
     windows = []
-    left = 12
+    left = 12 if not soak else 400
     for wi in range(nwin):
         n = rw.choice(sizes)
         k = rw.choice([0, 1, 1, 2, 3, 5]) if wi > 0 else rw.choice([1, 1, 2, 3])
